@@ -136,7 +136,8 @@ def main():
             results.append(r)
             print(f"{r['status']:>18}  {r['id']:<44} {json.dumps(r.get('checks', r.get('detail', '')))[:200]}", flush=True)
     results.sort(key=lambda r: r["id"])
-    out = os.path.join(HERE, "mutation_results_seeded.json" if args.seeded else "mutation_results.json")
+    out = os.path.join(HERE, "mutation_results_seeded.json" if args.seeded else
+                       "mutation_results_nosuite.json" if args.skip_suite else "mutation_results.json")
     old = {}
     if os.path.exists(out) and (args.only or args.prop):
         old = {r["id"]: r for r in json.load(open(out))["results"]}
